@@ -294,7 +294,7 @@ pub fn check_main(args: &[String]) -> i32 {
             if !skip.is_empty() {
                 cmd.args(["--skip", &skip.iter().map(|x| x.to_string()).collect::<Vec<_>>().join(",")]);
             }
-            let child = cmd.envs(malloc_env()).stdout(std::process::Stdio::piped()).stderr(std::process::Stdio::piped()).spawn().expect("spawn worker");
+            let child = cmd.envs(malloc_env()).env("LSIM_TIER", &tier).stdout(std::process::Stdio::piped()).stderr(std::process::Stdio::piped()).spawn().expect("spawn worker");
             children.push((w, skip, from_k, child));
         }
         for (w, skip, from_k, child) in children {
